@@ -181,9 +181,13 @@ def gen_case(rng, unicode_mode=None, maxlen=10):
                 pats.insert(rng.randint(0, len(pats)), marker)
             if x < 0.04:
                 pats.insert(rng.randint(0, len(pats)), marker)
-        w = rng.choice([None, None, None, 1, 2, 3, 5, 20])
+        # the window of a call: an explicit size, an explicit None (= search everything, whatever the object's own setting),
+        # or -1 = not given (the searchwindowsize attribute of the spawn object decides)
+        w = rng.choice([None, None, None, 1, 2, 3, 5, 20, -1, -1, -1])
         ops.append(('call', kind, pats, w, rng.random() < 0.15))
-    return {'unicode': unicode_mode, 'script': script, 'ops': ops, 'init': None}
+    return {'unicode': unicode_mode, 'script': script, 'ops': ops, 'init': None,
+            'sw': rng.choice([None, None, 1, 2, 3, 5]),          # the spawn object's own searchwindowsize
+            'reuse_list': rng.random() < 0.4}                    # the caller reuses ONE list object, edited in place between calls
 
 
 def small_cases(maxlen, windows=(None, 1, 2, 3, 7)):
@@ -210,6 +214,11 @@ def small_cases(maxlen, windows=(None, 1, 2, 3, 7)):
 
 
 LAST_SEARCHER = [None]
+
+
+def eff_w(case, w):
+    """the search window in force for a call (documented rule: -1/not given = the attribute of the spawn object)"""
+    return case.get('sw') if w == -1 else w
 
 
 def install_recorder(pexpect):
@@ -271,6 +280,9 @@ def run_real(pexpect, case):
         sp._before.write(enc(pend))
         sp._buffer = sp.buffer_type()
         sp._buffer.write(enc(buf))
+    if case.get('sw') is not None:
+        sp.searchwindowsize = case['sw']
+    shared = {'exact': [], 're': []}
     obs = []
     for op in case['ops']:
         if op[0] == 'setbuf':
@@ -290,12 +302,16 @@ def run_real(pexpect, case):
             else:
                 plist.append(re.compile(enc(rx_src(p[1], enc)), re.DOTALL))
         timeout = 0 if t0 else 30
+        if case.get('reuse_list'):
+            shared[kind][:] = plist
+            plist = shared[kind]
         o = {'op': 'call'}
+        kw = {} if w == -1 else {'searchwindowsize': w}
         try:
             if kind == 'exact':
-                idx = sp.expect_exact(plist, timeout=timeout, searchwindowsize=w)
+                idx = sp.expect_exact(plist, timeout=timeout, **kw)
             else:
-                idx = sp.expect_list(plist, timeout=timeout, searchwindowsize=w)
+                idx = sp.expect_list(plist, timeout=timeout, **kw)
             o['ret'] = idx
         except pexpect.EOF:
             o['exc'] = 'EOF'
@@ -349,6 +365,7 @@ def coq_case(case):
             ops.append('(SetBuffer %s)' % ctext(op[1]))
         else:
             _, kind, pats, w, t0 = op
+            w = eff_w(case, w)
             ops.append('(Call {| ckind := %s; pats := %s; W := %s |} %s)' % (
                 'KExact' if kind == 'exact' else 'KRe', clist([coq_entry(p) for p in pats]), copt(w, cnat), cbool(t0)))
     evs = []
@@ -402,6 +419,7 @@ def reference_history(pexpect, case):
             exp.append({'op': 'setbuf', 'pending': pending, 'left': len(script)})
             continue
         _, kind, pats, w, t0 = op
+        w = eff_w(case, w)
         eof_i = max([i for i, p in enumerate(pats) if p == 'EOF'], default=None)
         to_i = max([i for i, p in enumerate(pats) if p == 'TIMEOUT'], default=None)
         reads = 0
@@ -476,7 +494,7 @@ def judge(pexpect, case, obs, exp, which):
         elif which == 'C02':
             if got == 'match':
                 # genuine: pattern idx really matches `after` where before ends, within the text that was searched
-                kind, pats, w = case['ops'][k][1], case['ops'][k][2], case['ops'][k][3]
+                kind, pats, w = case['ops'][k][1], case['ops'][k][2], eff_w(case, case['ops'][k][3])
                 enc = (lambda s: s) if case['unicode'] else (lambda s: s.encode('latin-1'))
                 full = o['before'] + o['after'] + o['buffer_attr']
                 if o['match_index'] != o['ret']:
